@@ -6,9 +6,15 @@ Import ListNotations.
 Local Open Scope Z_scope.
 
 Definition flen (f : list Z) : Z := Z.of_nat (length f).
-(* the environment of the theorems: candidate fixes applied, fuel larger than the file length, cap above the bound *)
+(* the environment of the theorems about the code as it is now: at least the applied fixes, fuel larger than the
+   file length, cap above the bound; [fixed_env] adds the proposed fixes/C09_5 *)
+Definition now_env (E : env) (f : list Z) (bound : Z) : Prop :=
+  cfg_ge_now (e_cfg E) /\ (length f < e_fuel E)%nat /\ bound <= e_cap E.
 Definition fixed_env (E : env) (f : list Z) (bound : Z) : Prop :=
-  e_cfg E = cfg_fixed /\ (length f < e_fuel E)%nat /\ bound <= e_cap E.
+  now_env E f bound /\ fix_rank (e_cfg E) = true.
+(* every outcome but one: std::bad_alloc out of Db::setLocatorByUID (site 16), a locator rank used as a size *)
+Definition safe_outcome {A} (o : outcome A) : Prop :=
+  match o with Crashed b => is_throw16 b = true | _ => True end.
 Definition good_outcome {A} (wf : A -> Prop) (bound : Z) (o : outcome A) : Prop :=
   clean o /\ 0 <= ghost_of o <= bound /\ forall a, loaded o a -> wf a.
 
@@ -32,6 +38,25 @@ Proof.
     + intros a' [g Hg]. discriminate.
   - simpl. split; [exact I|split; [lia|]]. intros a' [g Hg]. discriminate.
 Qed.
+Lemma create_spec2 : forall A tag (rd : env -> mon -> res (option A)) E f cost (wf : A -> Prop) (rk : bool),
+  0 <= cost ->
+  (forall m, len m <= flen f ->
+     match rd E m with
+     | Ret o m' => len m' <= len m /\ galloc m <= galloc m' /\ (rk = true -> galloc m' <= galloc m + cost) /\
+                   match o with Some a => rk = true -> wf a | None => True end
+     | Bad b => is_throw16 b = true /\ rk = false
+     end) ->
+  safe_outcome (create_from_nf tag rd E f) /\ (rk = true -> good_outcome wf cost (create_from_nf tag rd E f)).
+Proof.
+  intros A tag rd E f cost wf rk Hc H. unfold create_from_nf, good_outcome, safe_outcome.
+  destruct (file_open tag f) as [m|] eqn:FO.
+  - destruct (file_open_len _ _ _ FO) as [HL HG]. specialize (H m HL).
+    destruct (rd E m) as [o m'|b].
+    + destruct H as [H1 [H2 [H3 H4]]]. destruct o as [a|]; simpl; (split; [exact I|]); intros HR; specialize (H3 HR);
+        (split; [exact I|split; [lia|]]); intros a' [g Hg]; [inversion Hg; subst; auto|discriminate].
+    + destruct H as [H1 H2]. split; [assumption|]. intros HR. congruence.
+  - simpl. split; [exact I|]. intros _. split; [exact I|split; [lia|]]. intros a' [g Hg]. discriminate.
+Qed.
 Lemma good_outcome_weaken : forall A (wf : A -> Prop) b1 b2 o, b1 <= b2 -> good_outcome wf b1 o -> good_outcome wf b2 o.
 Proof. intros A wf b1 b2 o H [H1 [H2 H3]]. split; [assumption|split; [lia|assumption]]. Qed.
 
@@ -41,58 +66,72 @@ Variable f : list Z.
 Hypothesis Hlen : flen f < 2147483648.
 
 Lemma flen_nonneg : 0 <= flen f. Proof. unfold flen. lia. Qed.
-Lemma fuel_of : forall b, fixed_env E f b -> flen f < Z.of_nat (e_fuel E).
+Lemma fuel_of : forall b, now_env E f b -> flen f < Z.of_nat (e_fuel E).
 Proof. intros b [_ [H _]]. unfold flen. lia. Qed.
 
-Theorem load_Table_fixed : fixed_env E f (alloc_bound (flen f)) -> good_outcome wf_table (alloc_bound (flen f)) (load_Table E f).
+(* the code as it is now *)
+Theorem load_Table_now : now_env E f (alloc_bound (flen f)) -> good_outcome wf_table (alloc_bound (flen f)) (load_Table E f).
 Proof.
   intros HE. pose proof flen_nonneg. pose proof (fuel_of _ HE). destruct HE as [H1 [H2 H3]].
   eapply good_outcome_weaken; [|apply create_spec with (cost := 8 * flen f); [lia|]].
   - unfold alloc_bound. lia.
   - intros m Hm. apply (table_fixed E (flen f)); assumption.
 Qed.
-Theorem load_Polygons_fixed : fixed_env E f (alloc_bound (flen f)) -> good_outcome wf_polygons (alloc_bound (flen f)) (load_Polygons E f).
+Theorem load_Polygons_now : now_env E f (alloc_bound (flen f)) -> good_outcome wf_polygons (alloc_bound (flen f)) (load_Polygons E f).
 Proof.
   intros HE. pose proof flen_nonneg. pose proof (fuel_of _ HE). destruct HE as [H1 [H2 H3]].
   eapply good_outcome_weaken; [|apply create_spec with (cost := 32 * flen f); [lia|]].
   - unfold alloc_bound. lia.
   - intros m Hm. apply (polygons_fixed E (flen f)); assumption.
 Qed.
-Theorem load_Faults_fixed : fixed_env E f (alloc_bound (flen f)) -> good_outcome wf_faults (alloc_bound (flen f)) (load_Faults E f).
+Theorem load_Faults_now : now_env E f (alloc_bound (flen f)) -> good_outcome wf_faults (alloc_bound (flen f)) (load_Faults E f).
 Proof.
   intros HE. pose proof flen_nonneg. pose proof (fuel_of _ HE). destruct HE as [H1 [H2 H3]].
   eapply good_outcome_weaken; [|apply create_spec with (cost := 32 * flen f); [lia|]].
   - unfold alloc_bound. lia.
   - intros m Hm. apply (faults_fixed E (flen f)); assumption.
 Qed.
-Theorem load_PolyLine2D_fixed : fixed_env E f (alloc_bound (flen f)) -> good_outcome wf_polyline (alloc_bound (flen f)) (load_PolyLine2D E f).
+Theorem load_PolyLine2D_now : now_env E f (alloc_bound (flen f)) -> good_outcome wf_polyline (alloc_bound (flen f)) (load_PolyLine2D E f).
 Proof.
   intros HE. pose proof flen_nonneg. pose proof (fuel_of _ HE). destruct HE as [H1 [H2 H3]].
   eapply good_outcome_weaken; [|apply create_spec with (cost := 16 * flen f + 16); [lia|]].
   - unfold alloc_bound. lia.
   - intros m Hm. apply (polyline_fixed E (flen f)); assumption.
 Qed.
-Theorem load_PolyElem_fixed : fixed_env E f (alloc_bound (flen f)) -> good_outcome wf_polyelem (alloc_bound (flen f)) (load_PolyElem E f).
+Theorem load_PolyElem_now : now_env E f (alloc_bound (flen f)) -> good_outcome wf_polyelem (alloc_bound (flen f)) (load_PolyElem E f).
 Proof.
   intros HE. pose proof flen_nonneg. pose proof (fuel_of _ HE). destruct HE as [H1 [H2 H3]].
   eapply good_outcome_weaken; [|apply create_spec with (cost := 16 * flen f + 16); [lia|]].
   - unfold alloc_bound. lia.
   - intros m Hm. apply (polyelem_fixed E (flen f)); assumption.
 Qed.
+(* Db and DbGrid: safe now; fully good with fixes/C09_5 *)
+Lemma load_Db_both : now_env E f (alloc_bound (flen f)) ->
+  safe_outcome (load_Db E f) /\ (fix_rank (e_cfg E) = true -> good_outcome wf_db (alloc_bound (flen f)) (load_Db E f)).
+Proof.
+  intros HE. pose proof flen_nonneg. pose proof (fuel_of _ HE). destruct HE as [H1 [H2 H3]].
+  destruct (create_spec2 db tag_Db (fun E m => db_deserialize E None m) E f (240 * flen f) wf_db (fix_rank (e_cfg E)) ltac:(lia)) as [S G].
+  - intros m Hm. pose proof (db_spec E (flen f) H1 ltac:(lia) ltac:(assumption) H3 None m I Hm) as HD.
+    unfold dspec in HD. destruct (db_deserialize E None m) as [o m'|b]; [|exact HD].
+    destruct HD as [D1 [D2 [D3 D4]]]. split; [assumption|split; [assumption|split; [assumption|]]].
+    destruct o; [|exact I]. intros HR. destruct (D4 HR). assumption.
+  - split; [exact S|]. intros HR. eapply good_outcome_weaken; [|exact (G HR)]. unfold alloc_bound. lia.
+Qed.
+Lemma load_DbGrid_both : now_env E f (alloc_bound_grid (flen f)) ->
+  safe_outcome (load_DbGrid E f) /\ (fix_rank (e_cfg E) = true -> good_outcome wf_dbgrid (alloc_bound_grid (flen f)) (load_DbGrid E f)).
+Proof.
+  intros HE. pose proof flen_nonneg. pose proof (fuel_of _ HE). destruct HE as [H1 [H2 H3]].
+  destruct (create_spec2 dbgrid tag_DbGrid dbgrid_deserialize E f (16 * flen f * flen f + 300 * flen f) wf_dbgrid (fix_rank (e_cfg E)) ltac:(nia)) as [S G].
+  - intros m Hm. pose proof (dbgrid_spec E (flen f) H1 ltac:(lia) ltac:(assumption) H3 m Hm) as HD.
+    unfold gspec in HD. exact HD.
+  - split; [exact S|]. intros HR. eapply good_outcome_weaken; [|exact (G HR)]. unfold alloc_bound_grid. nia.
+Qed.
+Theorem load_Db_now : now_env E f (alloc_bound (flen f)) -> safe_outcome (load_Db E f).
+Proof. intros H. apply load_Db_both. assumption. Qed.
+Theorem load_DbGrid_now : now_env E f (alloc_bound_grid (flen f)) -> safe_outcome (load_DbGrid E f).
+Proof. intros H. apply load_DbGrid_both. assumption. Qed.
 Theorem load_Db_fixed : fixed_env E f (alloc_bound (flen f)) -> good_outcome wf_db (alloc_bound (flen f)) (load_Db E f).
-Proof.
-  intros HE. pose proof flen_nonneg. pose proof (fuel_of _ HE). destruct HE as [H1 [H2 H3]].
-  eapply good_outcome_weaken; [|apply create_spec with (cost := 128 * flen f); [lia|]].
-  - unfold alloc_bound. lia.
-  - intros m Hm. pose proof (db_fixed E (flen f) H1 ltac:(lia) ltac:(assumption) H3 None m I Hm) as HD.
-    unfold rspec in *. destruct (db_deserialize E None m) as [o m'|b]; [|contradiction].
-    destruct HD as [D1 [D2 D3]]. split; [assumption|split; [assumption|]]. destruct o; [destruct D3; assumption|exact I].
-Qed.
+Proof. intros [H HR]. apply load_Db_both; assumption. Qed.
 Theorem load_DbGrid_fixed : fixed_env E f (alloc_bound_grid (flen f)) -> good_outcome wf_dbgrid (alloc_bound_grid (flen f)) (load_DbGrid E f).
-Proof.
-  intros HE. pose proof flen_nonneg. pose proof (fuel_of _ HE). destruct HE as [H1 [H2 H3]].
-  eapply good_outcome_weaken; [|apply create_spec with (cost := 16 * flen f * flen f + 256 * flen f); [nia|]].
-  - unfold alloc_bound_grid. nia.
-  - intros m Hm. apply (dbgrid_fixed E (flen f)); try assumption. lia.
-Qed.
+Proof. intros [H HR]. apply load_DbGrid_both; assumption. Qed.
 End Loaders.
